@@ -37,6 +37,9 @@ Nested == { <<"nested-from", <<[m |-> "from_", src |-> "Q6"], [m |-> "select", t
             <<"having-or", <<From, Sel, [m |-> "groupby", terms |-> <<Fld("T1", "a")>>],
                              [m |-> "having", crit |-> [k |-> "bin", op |-> "OR", l |-> Gt([k |-> "call", f |-> "SUM", args |-> <<Fld("T1", "b")>>], Num("1")), r |-> Cmp(Fld("T1", "a"), Num("2"))]]>> >>,
             <<"distinct", <<From, Sel, [m |-> "distinct"]>> >>,
+            \* the clause only the dialect's own builder class has (MySQL modifiers, PostgreSQL DISTINCT ON, MSSQL TOP), index hints / FOR UPDATE / WITH TOTALS
+            <<"dialect-own", <<From, Sel, [m |-> "dialect_own"]>> >>,
+            <<"hints", <<From, Sel, [m |-> "hints"]>> >>,
             \* JOIN ON with a compound criterion (a bracket request of the embedding position must not reach it)
             <<"join-on-and", <<From, [m |-> "join", item |-> "T2", how |-> "", kind |-> "on",
                                       crit |-> [k |-> "bin", op |-> "AND", l |-> Cmp(Fld("T1", "a"), Fld("T2", "a")), r |-> Cmp(Fld("T1", "b"), Fld("T2", "b"))], cols |-> <<>>], Sel>> >>,
